@@ -196,7 +196,7 @@ fn run_one<K: HKey>(s: &mut Sess, rng: &mut Rng, cfg: &str, keys: &[Vec<u8>], op
         let files: BTreeSet<String> = if cas == "_" { BTreeSet::new() } else { cas.split(',').map(|e| e.split(':').next().unwrap().to_string()).collect() };
         let refd: BTreeSet<String> = c.map.values().map(|b| hx(blake3::hash(b).as_bytes())).collect();
         let staging = d.split(' ').find_map(|f| f.strip_prefix("staging=")).unwrap_or("0");
-        let want = format!("orphans={} missing={} corrupted=0 staging={} total={}", files.difference(&refd).count(), refd.difference(&files).count(), staging, files.len());
+        let want = format!("orphans={} missing={} corrupted=0 staging={} total={} invalid=0", files.difference(&refd).count(), refd.difference(&files).count(), staging, files.len());
         if rest != want { c.s.out.oracle_fail(format!("C08: scan after crash reported `{rest}`, directory/index comparison gives `{want}`")); }
         c.observe(false);
         // clean-up restores exactness (C08 → C07)
